@@ -169,22 +169,64 @@ pub fn gen_c20(sink: &mut Sink, thorough: bool, seed: u64) {
             }
         }
     }
+    // a component on either side of every power of two (and of every constant new in a changed source file)
+    // against the versions a packed or truncated comparison key would confuse it with
+    let mut specials: Vec<u64> = vec![];
+    for k in 1..=32u32 {
+        specials.extend([(1u64 << k) - 1, 1u64 << k, (1u64 << k) + 1]);
+    }
+    for t in thresholds(u32::MAX as usize) {
+        specials.extend([t as u64 - 1, t as u64, t as u64 + 1]);
+        if t < 32 {
+            specials.extend([(1u64 << t) - 1, 1u64 << t, (1u64 << t) + 1]);
+        }
+    }
+    specials.retain(|c| *c <= u32::MAX as u64);
+    specials.sort();
+    specials.dedup();
+    for &c in &specials {
+        let shapes = [
+            (format!("0.{}.0", c), vec!["1.0.0".to_string(), "0.0.0".into(), "1.0.1".into(), format!("0.{}.1", c), format!("1.{}.0", c), "0.0.1".into()]),
+            (format!("0.0.{}", c), vec!["0.1.0".to_string(), "1.0.0".into(), "0.0.0".into(), "0.1.1".into(), format!("0.1.{}", c), format!("1.0.{}", c)]),
+            (format!("0.{}.1", c), vec!["1.0.0".to_string(), "1.0.1".into(), format!("0.{}.0", c), "0.0.2".into()]),
+            (format!("{}.0.0", c), vec!["0.1.0".to_string(), "0.0.1".into(), format!("{}.0.1", c), "1.0.0".into()]),
+            (format!("3.7.{}", c), vec!["3.8.0".to_string(), "4.0.0".into(), "3.7.0".into()]),
+            (format!("3.{}.7", c), vec!["4.0.0".to_string(), "3.0.8".into(), "4.0.7".into()]),
+        ];
+        for (x, ys) in shapes {
+            for y in ys {
+                sink.push(crate::eval::eval_line(&format!("svcmp|{}|{}", x, y)));
+                sink.push(crate::eval::eval_line(&format!("svcmp|{}|{}", y, x)));
+            }
+        }
+        for (a, b, cc) in [(0u64, c, 0u64), (0, 0, c), (3, 7, c), (c, 0, 0), (3, c, 7)] {
+            sink.push(crate::eval::eval_line(&format!("sv1|{}|{}|{}", a, b, cc)));
+        }
+    }
     for x in &all {
         for y in &all {
             sink.push(crate::eval::eval_line(&format!("svcmp|{}|{}", x, y)));
         }
     }
     // grammar of well- and ill-formed texts
-    let parts = [
+    let mut parts: Vec<String> = [
         "0", "1", "10", "007", "4294967295", "4294967296", "42949672950", "99999999999999999999", "+1", "+", "-", "-1", "-0", "+0", "++1", "",
         " 1", "1 ", "1a", "a", "abc", "1_0", "0x1", "١", "1e3", "4294967295x", "99999999999x", "+4294967295", "+4294967296",
         // zero-padded and long numerals: a u32 may be written with any number of leading zeros
         "00000000001", "000000000012", "004294967295", "0004294967295", "000000000004294967295", "000000000004294967296",
         "00000000000x", "000000000000", "+000000000012", "+00000000001", "0000000000000000000000000000000000000001",
         "00000000000000000000000000000000004294967296", "0000000000 1", "00000000000-",
-    ];
+    ]
+    .iter()
+    .map(|s| s.to_string())
+    .collect();
+    // numerals of t-1, t, t+1 bytes for every integer constant new in a changed source file
+    for n in around_thresholds(400) {
+        parts.push(format!("{}7", "0".repeat(n.saturating_sub(1))));
+        parts.push(format!("{}4294967296", "0".repeat(n.saturating_sub(10))));
+    }
     let mut texts: BTreeSet<String> = BTreeSet::new();
-    for a in parts {
+    for a in &parts {
         for b in ["1", "", "x", "4294967296", "+2"] {
             for c in ["2", "", "-3", "4294967295"] {
                 texts.insert(format!("{}.{}.{}", a, b, c));
@@ -387,7 +429,12 @@ pub fn gen_c18(sink: &mut Sink, thorough: bool, seed: u64) {
     // scale: many versions per package, many packages, many dependencies in one call (a threshold on a count
     // in the provider shows); two packages whose numbers of matching versions differ by one must still rank apart
     let scales: &[(u32, u32)] = if thorough { &[(255, 256), (256, 257), (1023, 1024), (1024, 1025), (1100, 1101), (1500, 3000), (4095, 4097)] } else { &[(255, 257), (1024, 1025), (1100, 1101), (1500, 3000)] };
-    for &(na, nb) in scales {
+    let mut scales: Vec<(u32, u32)> = scales.to_vec();
+    for t in thresholds(6000) {
+        let t = t as u32;
+        scales.extend([(t - 1, t + 1), (t, t + 1), (t + 1, 2 * t)]);
+    }
+    for &(na, nb) in &scales {
         let mut h: Vec<String> = vec![];
         // added in descending order, with an overwrite in the middle
         for v in (1..=na).rev() {
@@ -447,6 +494,14 @@ pub fn eval_serde_range(req: &str, a_s: &str) -> Case {
             }
         }
         Err(e) => fail = Some(format!("Range JSON does not deserialize: {}", e)),
+    }
+    match serde_json::from_reader::<_, Range<u32>>(std::io::Cursor::new(text.as_bytes())) {
+        Ok(b) => {
+            if b != a {
+                fail = Some("Range round trip through serde_json::from_reader changed the value".to_string());
+            }
+        }
+        Err(e) => fail = Some(format!("Range does not round-trip through serde_json::from_reader: {}", e)),
     }
     // the same through the JSON value tree (a deserializer that announces sequence lengths)
     match serde_json::to_value(&a).and_then(serde_json::from_value::<Range<u32>>) {
@@ -515,7 +570,18 @@ pub fn eval_serde_semver(req: &str, ma: u32, mi: u32, pa: u32) -> Case {
     let v = SemanticVersion::new(ma, mi, pa);
     let text = serde_json::to_string(&v).unwrap();
     let back: Result<SemanticVersion, _> = serde_json::from_str(&text);
-    let fail = if back.as_ref().ok() != Some(&v) { Some("SemanticVersion JSON round trip failed".to_string()) } else { None };
+    let mut fail = if back.as_ref().ok() != Some(&v) { Some("SemanticVersion JSON round trip failed".to_string()) } else { None };
+    // the other decoding routes of serde_json (owned / transient strings instead of borrowed ones)
+    let routes: [(&str, Result<SemanticVersion, serde_json::Error>); 3] = [
+        ("from_slice", serde_json::from_slice(text.as_bytes())),
+        ("from_reader", serde_json::from_reader(std::io::Cursor::new(text.as_bytes()))),
+        ("from_value", serde_json::to_value(&v).and_then(serde_json::from_value)),
+    ];
+    for (how, r) in routes {
+        if r.as_ref().ok() != Some(&v) && fail.is_none() {
+            fail = Some(format!("SemanticVersion does not round-trip through serde_json::{}: {:?}", how, r.err().map(|e| e.to_string())));
+        }
+    }
     Case { req: req.to_string(), imp: format!("J={}|RT={}", text, bit(back.ok() == Some(v))), nontrivial: true, oracle_fail: fail, tags: vec!["serde_semver"] }
 }
 
@@ -768,9 +834,11 @@ pub fn eval_soak(req: &str, fillers: u32, names: &str, seed: u64) -> Case {
         if names == "i" { run_text_int(reg, rv, true) } else { run_text_string(reg, "root", rv, &strat) }
     };
     let first: Vec<String> = targets.iter().map(|(r, rv)| run(r, *rv)).collect();
-    for k in 0..fillers {
-        let _ = run(if k % 7 == 3 { &filler2 } else { &filler }, 1);
-    }
+    crate::util::quiet(|| {
+        for k in 0..fillers {
+            let _ = run(if k % 7 == 3 { &filler2 } else { &filler }, 1);
+        }
+    });
     let mut fail = None;
     let mut same = 0;
     for (i, (r, rv)) in targets.iter().enumerate().rev() {
@@ -796,6 +864,9 @@ pub fn gen_c07(sink: &mut Sink, thorough: bool, seed: u64) {
     if thorough {
         centres.push(131_072);
     }
+    centres.extend(thresholds(200_000).iter().map(|t| *t as u32).filter(|t| *t >= 20));
+    centres.sort();
+    centres.dedup();
     for c in centres {
         for names in ["s", "i"] {
             for f in [c - 17, c - 16] {
